@@ -35,6 +35,7 @@ func genReuse(t *rapid.T) sim.Scenario {
 	p := profile
 	p.IDPool = []string{"1", "2", "3", `"a"`}
 	p.PGate, p.PUnknown, p.PBurst, p.PNote = 45, 22, 20, 10
+	p.PSendFault = 18 // ... also when the channel refused the reply: the call is over, its id free
 	return gen.ServerScenario(t, p)
 }
 
